@@ -60,6 +60,15 @@ CHECKS = {
         'note': 'Cancel-safety of FramedRead::next / scc get_async is assumed. FairQueue::poll_next itself is under contract in sequential scope (on Pending the current waker is registered; streams are put back unless ended; items carry the key of their stream); wake-ups from other threads are not modelled. proxy() itself (select! expansion) not covered.',
         'technique': 'Verus await-point invariants spliced before each former .await of the extracted recv functions',
     },
+    'C05': {
+        'text': 'Verus proves, on the real text and for every history of non-overlapping calls: (queue) FairQueue::poll_next returns an item only together with the key of the stream it was read from, that stream has then yielded exactly this one more item and is registered again under the same key, every other registered stream has yielded exactly what it had before (nothing is read and lost), and a stream leaves the queue only when it has ended or is removed by key; '
+                'as a lemma over that contract, after any number of polls what was delivered for a peer, in delivery order, is exactly what that peer\'s stream yielded, in stream order - nothing twice, nothing missing, nothing reordered. '
+                '(sockets) One recv of PULL, SUB, DEALER, ROUTER, REP or XPUB consumes queue items up to and including the first that is not a greeting or command: a message item is returned with exactly its frames (ROUTER: behind the identity of the connection it arrived on; REP: the frames after the envelope, or ONE error if the envelope rules are violated), a failed connection is one error or is skipped after forgetting that peer (ROUTER); as a lemma, the Ok results of successive recvs are exactly the message items of the queue in queue order. '
+                '(connection) the decoder yields each complete message exactly once, whole, in wire order, whatever the segmentation, and never an incomplete one (C02\'s contracts). Proof is the level for these per-call facts and their inductive corollaries; the concurrent window of the property is NOT decided (see note).',
+        'design_ref': 'DESIGN.md 10.2i',
+        'note': 'SEQUENTIAL SCOPE ONLY: poll_next is verified as if the queue lock were held for the whole call. The property also quantifies over peers being added, woken and removed by other tasks while a stream is checked out of the queue (the lock is released around the inner poll): that part is outside what per-call contracts over owned data decide, and is listed under not_covered in the evidence. Assumed: Pin::as_mut().poll_next as an expression (Pending / one more item / end), FairQueue::next as "one poll_next that returned Ready" (futures), asynchronous-codec FramedRead calling decode repeatedly over one buffer.',
+        'technique': 'Verus postconditions over per-stream ghost histories on the real FairQueue::poll_next and on every recv, plus inductive trace lemmas over those postconditions',
+    },
     'C11': {
         'text': 'Verus proves, on the real text of PubSocket::send and XPubSocket::send: for every subscriber still registered afterwards, its subscription list is untouched and its connection\'s writer was handed the message exactly once if some subscription is a byte-prefix of the first frame (the empty subscription matches everything) and not at all otherwise - also when several subscriptions match; send reports an error only if a writer reported one that is neither an I/O error nor a full buffer of a single connection. '
                 'The bookkeeping is proved on message_received of both sockets: a one-frame 0x01 message appends its topic, a one-frame 0x00 message removes exactly the first equal topic (nothing if there is none), anything else changes nothing, and only the sender\'s entry can change. XPubSocket::recv is proved to return the first message item the queue yields verbatim and to apply exactly that item to the sender\'s entry.',
